@@ -399,3 +399,31 @@ func matchParenAt(s string, i int) int {
 	}
 	return -1
 }
+
+// trustsPreLabel: `trustpre callee[label]` in the contract of the function under verification trusts ONE labelled precondition of
+// that callee (the other preconditions of the callee stay proof obligations at the call sites). Added for C07: the verified
+// contract of (*Snapshot).PayloadHash needs `requires [canonical]` for its `modifies nothing`; the properties that call it
+// (C19, C35, ...) keep proving `s != nil && s.Version == 2` and only take the canonical order of the transactions on trust.
+func (fr *Frame) trustsPreLabel(key, label string) bool {
+	if label == "" {
+		return false
+	}
+	root := fr
+	for root.callerFrame != nil {
+		root = root.callerFrame
+	}
+	if root.spec == nil {
+		return false
+	}
+	for _, n := range root.spec.TrustPre {
+		i := strings.Index(n, "[")
+		if i < 0 || !strings.HasSuffix(n, "]") || n[i+1:len(n)-1] != label {
+			continue
+		}
+		n = n[:i]
+		if key == n || strings.HasSuffix(key, "."+n) || strings.HasSuffix(key, ")."+n) {
+			return true
+		}
+	}
+	return false
+}
